@@ -235,6 +235,10 @@ fn run_chunks<T: Elem, N: ArrayLength>(mutf: bool, p: usize, l: usize, g: usize,
                 return out;
             }
             vals(&mut out, mode, f.iter().map(|x| x.val()));
+            // the flattened view is a mutable one: write through it too (the values it already holds)
+            for (t, x) in f.iter_mut().enumerate() {
+                *x = T::mk(newc(t));
+            }
         }
         // read back through the original buffer
         vals(&mut out, mode, buf.iter().map(|x| x.val()));
